@@ -50,7 +50,7 @@ Query(q, arg) == Call(q, arg, IF st.gram \/ q = "json" THEN "nullobj" ELSE "null
 Info(q, arg, cls) == Call(q, arg, cls, st)
 \* between utterances only
 SetGram(kind) == /\ Between
-                 /\ IF kind \in {"jsgf", "align", "fsg", "jsgffile"} THEN Call("gram", kind, "ok", [st EXCEPT !.gram = TRUE])
+                 /\ IF kind \in {"jsgf", "align", "fsg", "jsgffile", "align-empty", "jsgf-null-only"} THEN Call("gram", kind, "ok", [st EXCEPT !.gram = TRUE])
                     ELSE Call("gram", kind, "err", st)        \* previous grammar (if any) kept
 AddWord(kind) == /\ Between
                  /\ Call("addword", kind, IF kind = "new" THEN "n" ELSE "err", st)
@@ -71,7 +71,7 @@ LatDrop == st.kept /\ Call("latdrop", "", "nullobj", [st EXCEPT !.kept = FALSE])
 
 FeedKinds == {"tiny", "norm", "f32", "long", "f32long", "zero", "nosearch", "f32nosearch", "full", "full-nosearch"}
 GramKinds == {"jsgf", "align", "fsg", "jsgffile", "bad-syntax", "undefined-rule", "unknown-word", "fsg-unknown-word", "no-public",
-              "jsgffile-missing"}
+              "jsgffile-missing", "align-empty", "jsgf-empty", "jsgf-null-only"}
 WordKinds == {"new", "duplicate", "bad-phone", "empty-word", "empty-pron", "alt-without-base"}
 Queries == {<<"hyp", "0">>, <<"segiter", "0">>, <<"segiter", "1">>, <<"segiter", "2">>, <<"nbestiter", "3">>,
             <<"nbestiter", "1">>, <<"lattice", "0">>, <<"lattice", "1">>, <<"lattice", "2">>, <<"lattice", "3">>, <<"alignwalk", "0">>, <<"alignwalk", "1">>,
